@@ -135,6 +135,13 @@ func (s *State) assume(t *Term) {
 		}
 		return
 	}
+	if t.Op == "=>" && len(t.Args) == 2 && t.Args[1].Op == "and" {
+		// H => (A && B): assume H => A and H => B separately (keeps quantified and ground facts apart)
+		for _, a := range t.Args[1].Args {
+			s.assume(Implies(t.Args[0], a))
+		}
+		return
+	}
 	k := t.String()
 	if s.hypSet[k] {
 		return
